@@ -51,7 +51,15 @@ def streams(ctx):
     return [("invocations", ctx.scale(400, 5000))]
 
 
+# how the input entries are written: half of the cases announce defaults in the docstrings as well ("Defaults to 5"), as
+# hand-written code and every docstring produced with emit_default_doc does
+IN_KW = {}
+
+
 def gen_inputs(r, pk):
+    IN_KW.clear()
+    if r.random() < 0.5:
+        IN_KW.update({k: {"emit_default_doc": True} for k in ("class", "function", "pydantic")})
     n = r.randint(1, 5)
     names = r.sample(["Alpha", "Beta", "Gamma", "Delta", "Conf", "Model", "Node", "Warning", "filter", "input", "ConnectionError", "format", "X", "a1"], n)  # (entries named like builtins, one-letter names)
     irs = [irgen.rand_ir(r, nparams=r.randint(1, 4), type_kinds=T, default_kinds=D, with_return=False, name=nm,
@@ -64,10 +72,18 @@ def gen_inputs(r, pk):
                 w_ = p["doc"].split()
                 w_.insert(len(w_) // 2, "/usr/local/share/" + "/".join(r.choice(irgen.WORDS) for _ in range(14)))
                 p["doc"] = " ".join(w_)
+    if IN_KW:
+        # an announced default is text first: the small ones (a single digit, a sign, a bare 0) are where a reader of that
+        # text decides between int, float and bool
+        for ir in irs:
+            if r.random() < 0.6:
+                ir["params"][r.choice(("epochs", "workers", "retries", "verbosity"))] = {
+                    "typ": r.choice(("int", "int", "Optional[int]", "float")), "doc": irgen.rand_doc(r, stop=False),
+                    "default": r.choice((0, 1, 2, 3, 5, 7, 9, -1, 10))}
     if pk == "json_schema":
         irs = irs[:1]
         return json.dumps(hops.emit(irs[0], "json_schema")[0], indent=1), irs, "in.json"
-    body = "\n\n\n".join(hops.emit(ir, pk)[1] for ir in irs)
+    body = "\n\n\n".join(hops.emit(ir, pk, **IN_KW.get(pk, {}))[1] for ir in irs)
     return HEADS[pk] + "\n\n" + body + "\n", irs, "in.py"
 
 
@@ -89,7 +105,7 @@ def split_into_directory(r, irs, pk, mixed):
         for i in idxs:
             kinds[i] = fk
         files["m%d_%s.py" % (k, r.choice(("models", "funcs", "conf")))] = HEADS[fk] + "\n\n" + "\n\n\n".join(
-            hops.emit(irs[i], fk)[1] for i in idxs) + "\n"
+            hops.emit(irs[i], fk, **IN_KW.get(fk, {}))[1] for i in idxs) + "\n"
     return files, kinds
 
 
@@ -322,7 +338,7 @@ def run_case(ctx, P, stream, idx):
             continue
         # expected interface: the source entry as read by the matching parser, through one hop of the emit format
         try:
-            base = hops.parse(hops.emit(ir, pk_ir)[1], pk_ir) if pk != "json_schema" else hops.hop(ir, "json_schema")[1]
+            base = hops.parse(hops.emit(ir, pk_ir, **IN_KW.get(pk_ir, {}))[1], pk_ir) if pk != "json_schema" else hops.hop(ir, "json_schema")[1]
             # (the command emits without word wrap unless asked - `--no-word-wrap` is a store_true flag that gen()
             # compares with None - so the expectation is emitted without it too)
             exp = hops.hop(dict(base, name=ir["name"]), emit_fmt, {} if emit_fmt == "json_schema" else {"word_wrap": False})[1]
